@@ -26,10 +26,17 @@ TRUSTED = [
 ASSUME = [
     "encoding/json and encoding/base64 behave as the Go standard library does (json_ok, base64_ok; validated per run)",
     "a crash while writing leaves a prefix of the new content; the process (and its loader) is gone afterwards",
+    "a change of the file by ANOTHER writer is guaranteed visible to a surviving loader only when it carries a modification time "
+    "other than the one the loader cached at (theorems: strictly later than every earlier time); on an equal tick the loader "
+    "keeps returning the session it stored and read back itself (C12_foreign_equal_tick_unseen) - the direct oracle skips the "
+    "surviving loader's loads in that window, the model comparison does not",
     "host names are valid UTF-8 (encoding/json replaces invalid bytes by U+FFFD; outside the theorems)",
     "'resumes without a new key exchange' is shown only up to NewMTProto's decision (encrypted iff a session was found, "
     "fields taken from it); the live part needs the reference server (C16 work package)",
 ]
+
+
+TIMED = ("S", "C", "X", "NS", "TR", "G")   # operations that give the file a modification time (last field)
 
 
 def hexs(h):
@@ -59,14 +66,12 @@ class Hist:
     def sig(self, upto=None):
         """op kinds with the equality pattern of modification times (dense rank) - no payload."""
         ops = self.ops if upto is None else self.ops[:upto + 1]
-        times = sorted({int(o[-1]) for o in ops if o[0] in ("S", "C", "X", "NS")})
+        times = sorted({int(o[-1]) for o in ops if o[0] in TIMED})
         rk = {t: i for i, t in enumerate(times)}
         parts = []
         for o in ops:
-            if o[0] in ("S", "X", "NS"):
+            if o[0] in TIMED:
                 parts.append("%s@%d" % (o[0], rk[int(o[-1])]))
-            elif o[0] == "C":
-                parts.append("C@%d" % rk[int(o[-1])])
             else:
                 parts.append(o[0])
         return ",".join(parts)
@@ -111,6 +116,17 @@ def direct_oracle(h, kind, obs):
     """The property itself on the implementation's observations, no model involved.
     Returns None or (op index, expected, got, what)."""
     st = None          # None = absent | "?" = unknown (foreign write) | (sessfields, contentlen, n)
+    maxt = -1          # latest modification time handed out so far
+    unseen = False     # another writer changed the file on a tick that is not strictly later than everything
+                       # before: the surviving loader's mtime-keyed cache may legitimately not see it
+                       # (C12_foreign_equal_tick_unseen); a new loader must (checked after F / by N)
+
+    def valid_host(hx_):
+        try:
+            hexs(hx_).decode("utf-8")
+            return True
+        except UnicodeDecodeError:
+            return False
 
     def expect_load():
         if st is None:
@@ -124,7 +140,27 @@ def direct_oracle(h, kind, obs):
         got = obs.get(str(i))
         if got is None:
             return (i, "an observation", "none", "harness produced no observation")
-        if o[0] == "S":
+        newer = True
+        if o[0] in TIMED:
+            newer = int(o[-1]) > maxt
+            maxt = max(maxt, int(o[-1]))
+        if o[0] in ("S", "F", "C", "X", "NS"):
+            unseen = False     # own store drops the cache; the others start a new loader
+        if o[0] == "TR":
+            if st not in (None, "?"):
+                st = (st[0], st[1], min(int(o[1]), st[2]))
+                if not newer:
+                    unseen = True
+        elif o[0] == "G":
+            if kind == "D":
+                if got[:2] != ["G", "ok"]:
+                    return (i, "G ok", " ".join(got[:2]), "Store by a second loader fails although the directory of the path exists")
+                st = ((o[1], o[2], o[3], o[4]), len(hexs(got[2])), len(hexs(got[2]))) if valid_host(o[4]) else "?"
+                if not newer:
+                    unseen = True
+            elif got[:2] != ["G", "err"]:
+                return (i, "G err", " ".join(got[:2]), "Store into a missing directory does not report an error")
+        elif o[0] == "S":
             valid = True
             try:
                 hexs(o[4]).decode("utf-8")
@@ -138,7 +174,7 @@ def direct_oracle(h, kind, obs):
                 if got[:2] != ["S", "err"]:
                     return (i, "S err", " ".join(got[:2]), "Store into a missing directory does not report an error")
         elif o[0] == "L":
-            e = expect_load()
+            e = None if unseen else expect_load()
             if e is not None and got[1:] != e:
                 what = {"nf": "missing file not reported as not-found", "err": "torn file not reported as an error"}.get(
                     e[0], "Load does not return the last stored session")
@@ -194,8 +230,8 @@ def brief(obs):
     if f[:2] == ["N", "ok"] and len(f) >= 7:
         r = "N ok encrypted=%s key=%s hash=%s salt=0x%s addr=%r" % (f[2], hx(f[3]), hx(f[4]), f[5], show(f[6]))
         return r + (" " + brief(f[8:]) if "|" in f else "")
-    if f[:2] == ["S", "ok"] and len(f) >= 3:
-        return "S ok file=%s" % hx(f[2])
+    if f[:1] in (["S"], ["G"]) and f[1:2] == ["ok"] and len(f) >= 3:
+        return "%s ok file=%s" % (f[0], hx(f[2]))
     if "|" in f:
         k = f.index("|")
         return " ".join(f[:k]) + " | " + brief(f[k + 1:])
@@ -231,6 +267,11 @@ def pretty_ops(h):
             out.append("NewFromFile (new loader)")
         elif o[0] == "C":
             out.append("crash: file cut to %s bytes, mtime=%s, new loader" % (o[1], o[2]))
+        elif o[0] == "TR":
+            out.append("ANOTHER writer leaves the file cut to %s bytes, mtime=%s; loader lives on" % (o[1], o[2]))
+        elif o[0] == "G":
+            out.append("another loader: Store(key=%d bytes, hash=%d bytes, salt=0x%s, host=%r) mtime=%s; first loader lives on" % (
+                len(hexs(o[1])), len(hexs(o[2])), o[3], show(o[4]), o[5]))
         elif o[0] == "X":
             out.append("foreign write of %d bytes, mtime=%s, new loader" % (len(hexs(o[1])), o[2]))
         elif o[0] == "N":
@@ -394,7 +435,7 @@ def run(ctx):
             continue
         ok_store = [i for i, o in enumerate(h.ops) if o[0] in ("S", "NS") and store_ok(io.get(str(i), []))]
         if ok_store and any(o[0] in ("L", "N", "NS") for o in h.ops[ok_store[0] + 1:]):
-            crash = tuple(o[1] for o in h.ops if o[0] == "C")
+            crash = tuple(o[1] for o in h.ops if o[0] in ("C", "TR"))
             nontrivial.add((s.shape(), s.sig(), crash))
         if len(samples) < 6 and (int(h.id) % 577 == 3 or h.id in ("3", "27")):
             samples.append({"id": h.id, "tag": h.tag, "path": show(s.path), "ops": pretty_ops(s)[:8],
@@ -416,7 +457,7 @@ def run(ctx):
     cov = C.proof_coverage(
         pr, "make -f Makefile.coq theories/Props/C12.vo (coqc 8.16.1) in /verif/coq", TRUSTED,
         {"evaluations": evals, "distinct_nontrivial": len(nontrivial),
-         "rule": "histories of Store/Load/NewFromFile/crash/foreign write/NewMTProto/NewMTProto+SaveSession on one path in a scratch directory, "
+         "rule": "histories of Store/Load/NewFromFile/crash/foreign write/cut or complete store by another writer while the loader lives on/NewMTProto/NewMTProto+SaveSession on one path in a scratch directory, "
                  "run on internal/session + NewMTProto and on the extracted Coq step function; evaluations = operations compared; "
                  "non-trivial = distinct (path shape, operation sequence with the equality pattern of forced modification times, crash offsets) "
                  "among histories with a successful store followed by a load or client start on which model, implementation and the reference store agree",
